@@ -83,7 +83,7 @@ pub fn cedt_ref_entry_q(w: &mut W, op: &Op, rdpas_len: u16) {
             let n = op.shape as usize;
             w.u8(2).u8(0).u16((8 + 8 * n) as u16).u16(0).u8(f.e(0, 7) as u8).u8(n as u8);
             for i in 0..n {
-                w.u64(f.u64(1 + i as u8));
+                w.u64(f.u64(1 + (i % 8) as u8).wrapping_add(i as u64 / 8));
             }
         }
         C_RDPAS => {
@@ -125,6 +125,11 @@ impl Table for Cedt {
         for f in fl {
             v.push(Op::new(C_RDPAS, 0, *f));
         }
+        if !_h.iter().any(|o| o.k == C_CXIMS && o.shape >= 31) {
+            // records longer than 255 bytes
+            v.push(Op::new(C_CXIMS, 32, fl[0]));
+            v.push(Op::new(C_CXIMS, 255, fl[fl.len() - 1]));
+        }
         v
     }
     fn run(&self, c: &Ctor, ops: &[Op], obs: &mut dyn FnMut(usize, &dyn Aml, &[u32])) {
@@ -138,7 +143,7 @@ impl Table for Cedt {
                 C_CXIMS => {
                     let mut x = cedt::XorInterleaveMath::new(gran(f.e(0, 7)));
                     for n in 0..op.shape {
-                        x.add_xormap(f.u64(1 + n as u8));
+                        x.add_xormap(f.u64(1 + (n % 8) as u8).wrapping_add(n as u64 / 8));
                     }
                     t.add_xor_interleave_math(x)
                 }
@@ -240,7 +245,7 @@ impl Table for Cedt {
             C_CFMWS => vec![U(64), U(64), E(2), E(7), U(16), A(4)],
             C_CXIMS => {
                 let mut v = vec![E(7)];
-                for _ in 0..s {
+                for _ in 0..s.min(8) {
                     v.push(U(64));
                 }
                 v
@@ -251,7 +256,7 @@ impl Table for Cedt {
     fn shapes(&self, k: u8) -> Vec<u16> {
         match k {
             C_CFMWS => (0..8).map(|w| cfmws_shape(w, [0, 0x1f, 1, 2, 4, 8, 16, 0x0a][w as usize])).collect(),
-            C_CXIMS => vec![0, 1, 2, 3],
+            C_CXIMS => vec![0, 1, 2, 3, 31, 32, 255],
             _ => vec![0],
         }
     }
@@ -291,14 +296,21 @@ pub fn real_notification(f: &Fill, b: u8) -> hest::NotificationStructure {
         N::RiscvHighPriorityRasInterrupt,
         N::RiscvHardwareErrorException,
     ][f.e(b, 16)];
-    hest::NotificationStructure::new(t)
-        .conf_write_en(f.u16(b + 1))
-        .poll_interval_ms(f.u32(b + 2))
-        .vector(f.u32(b + 3))
-        .polling_threshold_value(f.u32(b + 4))
-        .polling_threshold_window_ms(f.u32(b + 5))
-        .error_threshold_value(f.u32(b + 6))
-        .error_threshold_window_ms(f.u32(b + 7))
+    let mut n = hest::NotificationStructure::new(t);
+    // the order of the setters must not matter: descending for odd base fillings, ascending otherwise
+    let order: Vec<u8> = if f.base % 2 == 1 { (0..7).rev().collect() } else { (0..7).collect() };
+    for st in order {
+        n = match st {
+            0 => n.conf_write_en(f.u16(b + 1)),
+            1 => n.poll_interval_ms(f.u32(b + 2)),
+            2 => n.vector(f.u32(b + 3)),
+            3 => n.polling_threshold_value(f.u32(b + 4)),
+            4 => n.polling_threshold_window_ms(f.u32(b + 5)),
+            5 => n.error_threshold_value(f.u32(b + 6)),
+            _ => n.error_threshold_window_ms(f.u32(b + 7)),
+        };
+    }
+    n
 }
 /// ACPI 6.5 table 18.14: type(1), length(1)=28, configuration write enable(2), poll interval(4), vector(4),
 /// switch-to-polling threshold value(4) / window(4), error threshold value(4) / window(4)
@@ -357,85 +369,100 @@ pub fn hest_ref_entry(w: &mut W, op: &Op) {
         _ => unreachable!(),
     }
 }
+/// shape bits: 1 = per-device (not GLOBAL), 2 = setters applied, 4 = setters applied in reverse order
 pub fn apply_hest(t: &mut hest::HEST, op: &Op) {
     let f = &op.fill;
     let global = op.shape & 1 == 0;
     let set = op.shape & 2 != 0;
+    let order = |n: u8| -> Vec<u8> {
+        if !set {
+            vec![]
+        } else if op.shape & 4 != 0 {
+            (0..n).rev().collect()
+        } else {
+            (0..n).collect()
+        }
+    };
     match op.k {
         E_ROOT => {
             let mut s = if global { hest::PcieAerRootPort::new_global() } else { hest::PcieAerRootPort::new_root_port(ff(f), hdev(f)) };
-            if set {
-                s = s
-                    .num_records(f.u32(4))
-                    .max_sections(f.u32(5))
-                    .device_control(f.u16(6))
-                    .uncorrectable_error_mask(f.u32(7))
-                    .uncorrectable_error_severity(f.u32(8))
-                    .correctable_error_mask(f.u32(9))
-                    .aer_cap_ctrl(f.u32(10))
-                    .root_error_command(f.u32(11));
+            for st in order(8) {
+                s = match st {
+                    0 => s.num_records(f.u32(4)),
+                    1 => s.max_sections(f.u32(5)),
+                    2 => s.device_control(f.u16(6)),
+                    3 => s.uncorrectable_error_mask(f.u32(7)),
+                    4 => s.uncorrectable_error_severity(f.u32(8)),
+                    5 => s.correctable_error_mask(f.u32(9)),
+                    6 => s.aer_cap_ctrl(f.u32(10)),
+                    _ => s.root_error_command(f.u32(11)),
+                };
             }
             t.add_structure(s)
         }
         E_DEV => {
             let mut s = if global { hest::PcieAerDevice::new_global() } else { hest::PcieAerDevice::new_root_port(ff(f), hdev(f)) };
-            if set {
-                s = s
-                    .num_records(f.u32(4))
-                    .max_sections(f.u32(5))
-                    .device_control(f.u16(6))
-                    .uncorrectable_error_mask(f.u32(7))
-                    .uncorrectable_error_severity(f.u32(8))
-                    .correctable_error_mask(f.u32(9))
-                    .aer_cap_ctrl(f.u32(10));
+            for st in order(7) {
+                s = match st {
+                    0 => s.num_records(f.u32(4)),
+                    1 => s.max_sections(f.u32(5)),
+                    2 => s.device_control(f.u16(6)),
+                    3 => s.uncorrectable_error_mask(f.u32(7)),
+                    4 => s.uncorrectable_error_severity(f.u32(8)),
+                    5 => s.correctable_error_mask(f.u32(9)),
+                    _ => s.aer_cap_ctrl(f.u32(10)),
+                };
             }
             t.add_structure(s)
         }
         E_BRIDGE => {
             let mut s = if global { hest::PcieAerBridge::new_global() } else { hest::PcieAerBridge::new_bridge(ff(f), hdev(f)) };
-            if set {
-                s = s
-                    .num_records(f.u32(4))
-                    .max_sections(f.u32(5))
-                    .device_control(f.u16(6))
-                    .uncorrectable_error_mask(f.u32(7))
-                    .uncorrectable_error_severity(f.u32(8))
-                    .correctable_error_mask(f.u32(9))
-                    .aer_cap_ctrl(f.u32(10))
-                    .secondary_uncorrectable_error_mask(f.u32(11))
-                    .secondary_uncorrectable_error_severity(f.u32(12))
-                    .secondary_aer_cap_ctrl(f.u32(13));
+            for st in order(10) {
+                s = match st {
+                    0 => s.num_records(f.u32(4)),
+                    1 => s.max_sections(f.u32(5)),
+                    2 => s.device_control(f.u16(6)),
+                    3 => s.uncorrectable_error_mask(f.u32(7)),
+                    4 => s.uncorrectable_error_severity(f.u32(8)),
+                    5 => s.correctable_error_mask(f.u32(9)),
+                    6 => s.aer_cap_ctrl(f.u32(10)),
+                    7 => s.secondary_uncorrectable_error_mask(f.u32(11)),
+                    8 => s.secondary_uncorrectable_error_severity(f.u32(12)),
+                    _ => s.secondary_aer_cap_ctrl(f.u32(13)),
+                };
             }
             t.add_structure(s)
         }
         E_GHES => {
             let en = [hest::EnabledStatus::Disabled, hest::EnabledStatus::Enabled][f.e(1, 2)];
             let mut s = hest::GenericHardwareSource::new(f.u16(0), en);
-            if set {
-                s = s
-                    .num_records(f.u32(2))
-                    .max_sections(f.u32(3))
-                    .max_raw_length(f.u32(4))
-                    .error_status_address(real_gas(f, 5))
-                    .notification(real_notification(f, 10))
-                    .error_status_block_len(f.u32(18));
+            for st in order(6) {
+                s = match st {
+                    0 => s.num_records(f.u32(2)),
+                    1 => s.max_sections(f.u32(3)),
+                    2 => s.max_raw_length(f.u32(4)),
+                    3 => s.error_status_address(real_gas(f, 5)),
+                    4 => s.notification(real_notification(f, 10)),
+                    _ => s.error_status_block_len(f.u32(18)),
+                };
             }
             t.add_structure(s)
         }
         _ => {
             let en = [hest::EnabledStatus::Disabled, hest::EnabledStatus::Enabled][f.e(1, 2)];
             let mut s = hest::GenericHardwareSourceV2::new(f.u16(0), en);
-            if set {
-                s = s
-                    .num_records(f.u32(2))
-                    .max_sections(f.u32(3))
-                    .max_raw_length(f.u32(4))
-                    .error_status_address(real_gas(f, 5))
-                    .notification(real_notification(f, 10))
-                    .error_status_block_len(f.u32(18))
-                    .read_ack_register(real_gas(f, 19))
-                    .read_ack_preserve(f.u64(24))
-                    .read_ack_write(f.u64(25));
+            for st in order(9) {
+                s = match st {
+                    0 => s.num_records(f.u32(2)),
+                    1 => s.max_sections(f.u32(3)),
+                    2 => s.max_raw_length(f.u32(4)),
+                    3 => s.error_status_address(real_gas(f, 5)),
+                    4 => s.notification(real_notification(f, 10)),
+                    5 => s.error_status_block_len(f.u32(18)),
+                    6 => s.read_ack_register(real_gas(f, 19)),
+                    7 => s.read_ack_preserve(f.u64(24)),
+                    _ => s.read_ack_write(f.u64(25)),
+                };
             }
             t.add_structure(s)
         }
@@ -468,6 +495,7 @@ impl Table for Hest {
             for (n, f) in fills(level).iter().enumerate() {
                 v.push(Op::new(k, if n % 2 == 0 { 3 } else { 0 }, *f));
             }
+            v.push(Op::new(k, 7, 3));
             if level > 1 {
                 v.push(Op::new(k, 1, 2));
                 v.push(Op::new(k, 2, 1));
@@ -548,9 +576,9 @@ impl Table for Hest {
     }
     fn shapes(&self, k: u8) -> Vec<u16> {
         if k <= E_BRIDGE {
-            vec![3, 0, 1, 2]
+            vec![3, 0, 1, 2, 7, 6]
         } else {
-            vec![3, 0]
+            vec![3, 0, 7]
         }
     }
 }
